@@ -9,100 +9,94 @@ Lean side: the lexer + FileInfo model (`Lex.lexAll`, every loop a structural rec
 rune list, so the definition itself is the termination proof) with Go's panics modelled
 (`AddLine` / `AddToken` / `AddComment` precondition panics, index panic in `SourcePos`).
 
-* `C12_no_panic_full` (no panic on any bytes) is REFUTED: `"\<FF>"` — `reportErr` computes the
-  error offset as `pos - len(badEscape)` where `badEscape` is the RE-ENCODED text of the escape; an
-  ill-formed byte is 1 byte in the input but 3 bytes (U+FFFD) re-encoded, so the offset is -1 and
-  `SourcePos` indexes `lines[-1]`.  `panic_only_from_ill_formed_escape`: that is the only panic —
-  `lex_no_panic`: on well-formed UTF-8 (in fact whenever every rune re-encodes to its own length)
-  the lexer never panics: `AddLine`, `AddToken`, `AddComment` preconditions are invariants.
-* `lex_errs_in_file`: every error offset the lexer reports lies in `[0, len]`.
-* `C12_pos_exists_full` (every reported line/column exists in the input, reporter that continues)
-  is REFUTED too: `"` + newline + `$` reports 1:3 on a one-character line (root cause: C13).
+* `lex_no_panic` (FULL): for every byte string and either reporter the lexer never panics — the
+  `FileInfo` precondition checks are invariants of the run, and every `SourcePos` argument lies in
+  the file (`Lemmas.LexInv.lexAll_final`).
+* `lex_errs_in_file`, `lex_err_positions` (FULL): every error the lexer reports is positioned at an
+  offset of the file and carries exactly that offset's line (1 + newlines before it) and column
+  (`SourcePos`'s byte fold; by C13 this is the character column on well-formed UTF-8):
+  `lex_err_position_exists`.
 The LALR automaton, the AST constructors and `ResultFromAST` are not modelled: their totality and
 `err ≠ nil ⇔ reported` (proved for the handler in C08) are observed by the `lextotal` engine on
-generated inputs only.  That engine found two more panics there, outside this model:
-`parser.Parse` with the default reporter panics "semicolon is nil" on
-`message m { extensions 1 to 2 [ d ]; }`, and `ResultFromAST` dereferences a nil `OptionNode.Val` on
-the partial AST of `message m { optional int32 x = 1 [ d ]; }` (reporter that continues).
+generated inputs only.
+
+History (found by this machinery on the earlier tree, fixed in /repo):
+* e715107a — `parser.Parse` panicked (index out of range [-1]) on the 4-byte file `"\<FF>"`:
+  `reportErr` positioned the error at `pos - len(badEscape)` with `badEscape` re-encoded, so an
+  ill-formed byte (1 byte in, 3 bytes U+FFFD out) drove the offset to -1. The model then had
+  `(lexAll false [0x22, 0x5C, 0xFF, 0x22]).panicked = true`, and the partial theorem "no panic on
+  well-formed UTF-8".
+* bf5e1388 — with a reporter that continues, `"` newline `$` reported 1:3 on a one-character line.
+* 0bf0e732 — `parser.Parse`, default reporter, panicked "semicolon is nil" on
+  `message m { extensions 1 to 2 [ d ]; }` (found by the harness; outside the Lean model).
+* e24276ca — `ResultFromAST` dereferenced a nil `OptionNode.Val` on the partial AST of
+  `message m { optional int32 x = 1 [ d ]; }` (harness; outside the Lean model).
 -/
 import PCV.Model.Lex
 import PCV.Spec.Lex
 import PCV.Lemmas.LexInv
 namespace PCV.Props.C12
-open PCV.Lex PCV.FileInfo PCV.Spec.Lex PCV.Lemmas.LexInv
+open PCV.Lex PCV.FileInfo PCV.Spec.Lex PCV.Lemmas.LexInv PCV.Lemmas.Pos
 
 /-- `lexAll` is a total function: every loop of the model is a structural recursion on the list of
     remaining runes (no fuel, no `partial`), so Lean's termination checker has accepted it. -/
 theorem lex_total (lenient : Bool) (bs : List UInt8) : ∃ st, lexAll lenient bs = st := ⟨_, rfl⟩
 
-/-- the full statement: no byte string makes the lexer panic -/
-def C12_no_panic_full : Prop := ∀ (lenient : Bool) (bs : List UInt8), (lexAll lenient bs).panicked = false
-
-/-- REFUTED by the 4-byte file `"\<FF>"` (22 5C FF 22) -/
-theorem C12_no_panic_refuted : ¬ C12_no_panic_full := by
-  intro h
-  have := h false [0x22, 0x5C, 0xFF, 0x22]
-  revert this
-  decide
-
-/-- **the only panic.** If the lexer panics, some rune of the input does not re-encode to the
-    number of bytes it was decoded from (an ill-formed byte inside a string escape). All
-    `FileInfo` precondition panics (`AddLine`, `AddToken`, `AddComment`) and the `SourcePos` of
-    plain errors are excluded for every input. -/
-theorem panic_only_from_ill_formed_escape (lenient : Bool) (bs : List UInt8)
-    (hp : (lexAll lenient bs).panicked = true) : ¬ Valid (runes (stripBOM bs)) := by
-  rcases lexAll_final lenient bs with ⟨_, hv⟩ | ⟨⟨rs, hc⟩, _, _⟩
-  · exact hv
-  · rw [hc.nopanic] at hp; cases hp
-
-/-- **no panic on well-formed UTF-8**, for every such byte string and either reporter -/
-theorem lex_no_panic (lenient : Bool) (bs : List UInt8) (hwf : WellFormedUtf8 (stripBOM bs)) :
-    (lexAll lenient bs).panicked = false := by
-  cases h : (lexAll lenient bs).panicked with
-  | false => rfl
-  | true => exact absurd (valid_of_wellformed _ hwf) (panic_only_from_ill_formed_escape lenient bs h)
+/-- **no panic (full statement, lexer).** For every byte string and either reporter: none of
+    `AddLine`, `AddToken`, `AddComment`, `SourcePos` panics during the run. -/
+theorem lex_no_panic (lenient : Bool) (bs : List UInt8) : (lexAll lenient bs).panicked = false := by
+  obtain ⟨⟨rs, hc⟩, _, _⟩ := lexAll_final lenient bs
+  exact hc.nopanic
 
 /-- every error the lexer reports has its offset inside the file -/
-theorem lex_errs_in_file (lenient : Bool) (bs : List UInt8) (hnp : (lexAll lenient bs).panicked = false) :
+theorem lex_errs_in_file (lenient : Bool) (bs : List UInt8) :
     ∀ e ∈ (lexAll lenient bs).errs, 0 ≤ e.off ∧ e.off ≤ ((stripBOM bs).length : Int) := by
-  rcases lexAll_final lenient bs with ⟨hp, _⟩ | ⟨⟨rs, hc⟩, _, _⟩
-  · rw [hp.1] at hnp; cases hnp
-  · intro e he
-    have := hc.errs_ok e he
-    have := hc.pos_le
-    omega
+  obtain ⟨⟨rs, hc⟩, _, _⟩ := lexAll_final lenient bs
+  intro e he
+  have := (hc.errs_ok e he).bounds
+  have := hc.pos_le
+  omega
+
+/-- every error the lexer reports carries the line and column of its own offset: line = 1 +
+    newlines before the offset, column = 1 + `SourcePos`'s fold over the bytes since the line start -/
+theorem lex_err_positions (lenient : Bool) (bs : List UInt8) :
+    ∀ e ∈ (lexAll lenient bs).errs, ∃ o : Nat, e.off = (o : Int) ∧ o ≤ (stripBOM bs).length ∧
+      e.line = specLine (stripBOM bs) o ∧
+      e.col = (slice (stripBOM bs) (lineStart (stripBOM bs) o) o).foldl colStep 0 + 1 := by
+  obtain ⟨⟨rs, hc⟩, _, _⟩ := lexAll_final lenient bs
+  intro e he
+  obtain ⟨o, h1, h2, h3, h4⟩ := hc.errs_ok e he
+  exact ⟨o, h1, Nat.le_trans h2 hc.pos_le, h3, h4⟩
 
 /-- a (line, column) exists in `data`: it is the position of some offset of the file -/
 def PosExists (data : List UInt8) (l c : Nat) : Prop :=
   ∃ off, off ≤ data.length ∧ specLine data off = l ∧ specCol data off = some c
 
-/-- the full statement about positions, for a reporter that lets the lexer continue -/
-def C12_pos_exists_full : Prop :=
-  ∀ (bs : List UInt8), (lexAll true bs).panicked = false →
-    ∀ e ∈ (lexAll true bs).errs, PosExists (stripBOM bs) e.line e.col
+/-- **reported positions exist.** Every error position the lexer reports is the line and column
+    of an offset of the file (stated where the column is defined: well-formed UTF-8 up to there). -/
+theorem lex_err_position_exists (lenient : Bool) (bs : List UInt8) (e : Err)
+    (he : e ∈ (lexAll lenient bs).errs)
+    (hwf : ∀ o : Nat, o ≤ (stripBOM bs).length → (specCol (stripBOM bs) o).isSome = true) :
+    PosExists (stripBOM bs) e.line e.col := by
+  obtain ⟨o, _, h2, h3, h4⟩ := lex_err_positions lenient bs e he
+  refine ⟨o, h2, h3.symm, ?_⟩
+  obtain ⟨c, hc⟩ := Option.isSome_iff_exists.mp (hwf o h2)
+  have hc' := hc
+  simp only [specCol, Option.map_eq_some_iff] at hc'
+  obtain ⟨c', hc'', rfl⟩ := hc'
+  have := colGo_fold 0 0 (o - lineStart (stripBOM bs) o) ((stripBOM bs).drop (lineStart (stripBOM bs) o)) c' hc'' (by simp)
+  rw [hc, h4]
+  simp only [slice, this]
 
-/-- REFUTED by `"` newline `$`: the second error is reported at 1:3, line 1 is one character long -/
-theorem C12_pos_exists_refuted : ¬ C12_pos_exists_full := by
-  intro h
-  have h1 := h [0x22, 0x0A, 0x24] (by decide) ⟨.invalidChar, 2, 1, 3⟩ (by decide)
-  obtain ⟨off, hoff, hl, hc⟩ := h1
-  have : ∀ off, off ≤ 3 → ¬ (specLine (stripBOM [0x22, 0x0A, 0x24]) off = 1 ∧
-      specCol (stripBOM [0x22, 0x0A, 0x24]) off = some 3) := by decide
-  exact this off hoff ⟨hl, hc⟩
-
-/-- In the default configuration (the reporter returns the error, lexing stops) at most one error is
-    ever reported. -/
-theorem strict_reports_at_most_one_witness :
-    (lexAll false [0x22, 0x0A, 0x24]).errs.length = 1 := by decide
-
--- non-vacuity of `lex_no_panic`: ASCII input is well-formed
-example : (lexAll true [0x22, 0x5C, 0x71, 0x22]).panicked = false := by decide
+-- non-vacuity / regression witnesses of the fixed defects
+example : (lexAll false [0x22, 0x5C, 0xFF, 0x22]).panicked = false := by decide
+example : (lexAll true [0x22, 0x5C, 0xFF, 0x22]).errs = [⟨.badEscape, 1, 1, 2⟩] := by decide
+example : (lexAll true [0x22, 0x0A, 0x24]).errs = [⟨.eolInString, 0, 1, 1⟩, ⟨.invalidChar, 2, 2, 1⟩] := by decide
 
 end PCV.Props.C12
 
 #print axioms PCV.Props.C12.lex_total
-#print axioms PCV.Props.C12.C12_no_panic_refuted
-#print axioms PCV.Props.C12.panic_only_from_ill_formed_escape
 #print axioms PCV.Props.C12.lex_no_panic
 #print axioms PCV.Props.C12.lex_errs_in_file
-#print axioms PCV.Props.C12.C12_pos_exists_refuted
+#print axioms PCV.Props.C12.lex_err_positions
+#print axioms PCV.Props.C12.lex_err_position_exists
